@@ -294,6 +294,14 @@ def block_accepts(stmts, c, indent=2):
         body = s.body + ([] if always_returns(s.body) else rest)
         return (pad + f"if {expr(s.test, c)} then\n" + block_accepts(body, c, indent + 2) + "\n" + pad + "else\n"
                 + block_accepts(els, c, indent + 2))
+    if isinstance(s, ast.Try) and not s.orelse and not s.finalbody and s.handlers and always_returns(s.body) \
+            and all(always_returns(h.body) for h in s.handlers):
+        # `try: return f(value) / except E: return g(value)`: whichever path runs, the outcome (returns / raises) must be the
+        # same for the translation to say anything without modelling when `f` raises `E`
+        outcomes = {block_accepts(s.body, c, indent)} | {block_accepts(h.body, c, indent) for h in s.handlers}
+        if len(outcomes) == 1:
+            return outcomes.pop()
+        raise TranslateError("try/except whose paths differ in outcome")
     raise TranslateError("statement " + ast.dump(s)[:160])
 
 
